@@ -8,12 +8,16 @@ VERIF = os.path.dirname(os.path.dirname(os.path.abspath(__file__)))
 COMMON_PHASES = ("closure of the 3-key universe to a fixpoint (5 hasher kinds x 3 initial capacities, 5 value sizes, key 0 in two sizes, "
                  "8 limits incl. 0 and usize::MAX; thorough: 4 keys), lean 4-key closure, ~50 seeded depth-bounded explorations "
                  "(tombstone families, collision chains, exactly full tables, grow/shrink cycles, 64-4096 entry caches), and the ladder "
-                 "(every fill level n up to 300 / 1200, 1-2 steps)")
+                 "(every fill level n up to 300 / 1200, 1-2 steps); plus, for all properties but C08/C09/C16/C18, every operation sequence of <= 3 "
+                 "(thorough: 4) of ~60 operations (incl. clone_from into four kinds of target and a forgotten drain) from 4 prefixes x "
+                 "{unbounded, exactly full} on 8 other instantiations of K, V, S (plain data with varying size estimate and non-bitwise Clone, "
+                 "String/&str, zero-sized key, zero-sized value, 32-byte aligned value, default hasher, drop glue on one side only) with "
+                 "their own fill ladder up to 40 / 300")
 
 LRUMC_NOTE = ("Exhaustive within the stated alphabet, universes, seed list and depth bounds (fixpoint for the closures); every state is "
               "reached by replaying its witness history on the real code and must reproduce its canonical key. Trusted: the reference "
               "semantics (DESIGN 3.10), the canonicalisation argument (3.4), rustc; hashbrown is executed, not modelled. Not covered: "
-              "key/value types other than the instrumented ones (plus the str-keyed and type-variant instantiations), hash values "
+              "key/value/hasher types other than the instrumented ones and the 8 + 4 + 1 further instantiations (instvar, typevar, strmap), hash values "
               "outside the five hasher kinds, histories that need more than 4 distinct keys and are not within the depth bound of a seed.")
 
 MC = "explicit-state model checking of the real code (parallel BFS to a fixpoint over canonical concrete states, replay-validated witness histories, step-local and history-level reference oracle)"
@@ -38,7 +42,7 @@ CHECKS = {
     "C20": ("model_checking", "lrumc", "Hash::hash invocation count (owned and borrowed key forms) per operation against 2 + departed (+ len for table-rebuilding operations), 0 for traversals / clear / drain / peek_lru / peek_mru, on every transition and every read-only operation, cache sizes 0 ... 4096", LRUMC_NOTE, MC),
     "C08": ("model_checking", "sizemc", "every type expression over 33 constructors x 12 leaves to one constructor level, two / three levels over the override-bearing constructors (quick: 862 types; thorough: + 11 361 types to depth 3-4), every instance shape (length x spare capacity x child choice x Option/Result variants x poisoned locks), 22 helper x iterator-adaptor combinations against element-wise sums; totality ladder of 1e3 / 1e5 / 2^20 elements on a 256 KiB stack in a dev build in child processes", "Exhaustive over the generated catalogue and the stated instance caps; element counts beyond 2^20 and types outside the catalogue are not covered. Trusted: the one-line-per-constructor structural reference.", "bounded-exhaustive enumeration of inputs (type nestings x instance shapes x iterator adaptors) executed on the real code against a structural reference"),
     "C09": ("model_checking", "sizemc", "every catalogue instance plus every build script of <= 2 (quick) / 3 (thorough) steps from 4 starts over {push, extend, reserve, reserve_exact, shrink_to_fit, shrink_to, truncate, clear} for String, OsString, PathBuf, Vec<T>, BinaryHeap<T> (12 element types), bare and inside 10 wrappers: heap_size == bytes held from a counting global allocator (<= and >= formula for HashMap / HashSet)", "Exhaustive over the script alphabet and depth: every reachable (len, capacity) relation under those scripts. Trusted: the counting allocator sees every allocation of the building thread.", "explicit enumeration of all build scripts to a depth (state = (len, capacity) relation) with the process allocator as oracle"),
-    "C18": ("exploration", "probes", "complete {Send+Sync, Send-only, Sync-only, neither}^3 x {Send, Sync} lattice (128 programs), generic bound probes, 17 reference / iterator-returning API expressions x 7 conflicting uses + conflict-free twins (296 programs): rustc accept/reject and error code vs. the expectation computed from the property's predicate", "The quantifier is over programs; the enumeration over the stated program space is exhaustive, each verdict is rustc's (trusted). There are no executions to explore for a compile-time property; not a proof about all Rust programs.", "exhaustive enumeration of a finite program space with the compiler as accept/reject oracle"),
+    "C18": ("exploration", "probes", "complete {Send+Sync, Send-only, Sync-only, neither}^3 x {Send, Sync} lattice (128 programs), generic bound probes, 72 negative iterator programs (none of the 7 iterator types may be Send / Sync with a witness in K, V or S that would keep the cache itself from being sent / shared), 17 reference / iterator-returning API expressions x 7 conflicting uses + conflict-free twins (368 programs): rustc accept/reject and error code vs. the expectation computed from the property's predicate", "The quantifier is over programs; the enumeration over the stated program space is exhaustive, each verdict is rustc's (trusted). There are no executions to explore for a compile-time property; not a proof about all Rust programs.", "exhaustive enumeration of a finite program space with the compiler as accept/reject oracle"),
 }
 
 
